@@ -185,6 +185,7 @@ def check_backend(run, backend, prefix, thorough=False):
     # (i) recorded MIR asserts (overflow of the i64 subtractions; index checks are concrete under len = 3)
     seen = set()
     n_assert = 0
+    assert_cands = []
     for s, v in outs:
         for (pc, cond, msg, where) in s.asserts:
             key = (str(cond), where)
@@ -192,8 +193,15 @@ def check_backend(run, backend, prefix, thorough=False):
                 continue
             seen.add(key)
             n_assert += 1
-            run.prove('%s.i assert cannot fail: %s @%s' % (prefix, msg[:40], where.split(':')[-1]), rng_h + list(pc), z3.Not(cond), timeout=30,
-                      cross=(n_assert <= 2))
+            va, ma = run.prove('%s.i assert cannot fail: %s @%s' % (prefix, msg[:40], where.split(':')[-1]), rng_h + list(pc), z3.Not(cond), timeout=30,
+                               cross=(n_assert <= 2), on_sat='caller')
+            if va == 'sat':
+                assert_cands.append({nm: [engine.model_value(ma, x) for x in P[nm]] for nm in NAMES})
+            elif va == 'unknown' and len(assert_cands) < 3:
+                # no verdict on the general (non-linear) query: decide ground instances at the corners of plausible fixed-width ranges
+                g = corner_instance(rng_h + list(pc), z3.Not(cond), P)
+                if g is not None:
+                    assert_cands.append(g)
     if interp.panics:
         # any reachable panic path (e.g. concrete index failure) under the range
         for pc, msg, st in interp.panics:
@@ -254,7 +262,7 @@ def check_backend(run, backend, prefix, thorough=False):
     run.prove('%s.ii self-mutation (SubAssign read as AddAssign) must be detected' % prefix, rng_h, to_z3(mut_det) != ref, timeout=60,
               expect='sat', cross=False)
 
-    cands = []
+    cands = list(assert_cands)
     if tail_bad:
         # the sign extraction returns something else than sgn(D) for a determinant of sign s: native points with that determinant sign
         pool = gen_samples(run.seed + 17, 200) + cospherical_samples(run.seed + 18, 200)
@@ -283,6 +291,37 @@ def check_backend(run, backend, prefix, thorough=False):
                         cands.append({nm: [engine.model_value(mm, x) for x in P[nm]] for nm in NAMES})
                         break
     return cands, P, code_det
+
+
+def corner_instance(hyps, neg_goal, P, tries=600, seed=7):
+    """ground-instance search for an undecided overflow / range assertion: a = origin, the other coordinates at the ends of ranges a
+    fixed-width fast path may use (2^k - 1 for several k) with seeded sign patterns; every instance is decided by z3 (ground formula).
+    Returns a point dict or None (nothing found is never a proof)"""
+    import random
+    rng = random.Random(seed)
+    base = 1 << 40
+    mags = [(1 << k) - 1 for k in (20, 26, 28, 29, 30, 31, 32, 40, 51)]
+    for t in range(tries):
+        m = mags[t % len(mags)] if t < 4 * len(mags) else rng.choice(mags)
+        pt = {'a': [base, base, base]}
+        for nm in NAMES[1:]:
+            if t < len(mags):
+                pt[nm] = [base + m, base + m, base + m]
+            else:
+                pt[nm] = [base + rng.choice((-m, m, 0, m // 2, -(m // 3))) for _ in range(3)]
+        if any(x < 0 or x >= R52 for nm in NAMES for x in pt[nm]):
+            continue
+        s = z3.Solver()
+        s.set('timeout', 2000)
+        for h in hyps:
+            s.add(h)
+        s.add(neg_goal)
+        for nm in NAMES:
+            for x, v in zip(P[nm], pt[nm]):
+                s.add(x == v)
+        if s.check() == z3.sat:
+            return pt
+    return None
 
 
 def confirm_and_report(run, pid, cands, what, backend='ibig'):
